@@ -495,7 +495,7 @@ func (env *Env) equalVals(l, r Val) string {
 		}
 		return and(cs...)
 	}
-	cerr("cannot compare values of kinds %d and %d", l.K, r.K)
+	cerr("cannot compare values of kinds %d and %d (%v / %v) l=%v r=%v", l.K, r.K, l.Typ, r.Typ, terms(l), terms(r))
 	return ""
 }
 
@@ -1043,9 +1043,10 @@ func (e *Engine) malformedTerm(v Val) string {
 			}
 		}
 		if tag == 0 {
-			cerr("malformed(): type pdf.MalformedFileError not loaded")
+			// package pdf is not part of this program: no value can be a *pdf.MalformedFileError
+			tag = -1
 		}
-		e.ctx.Global("err.malformed", fmt.Sprintf("(declare-fun err.wm (Int Int) Bool)\n(assert (forall ((v Int)) (! (not (err.wm 0 v)) :pattern ((err.wm 0 v)))))\n(define-fun err.malformed ((t Int) (v Int)) Bool (or (= t %d) (err.wm t v)))", tag))
+		e.ctx.Global("err.malformed", fmt.Sprintf("(declare-fun err.wm (Int Int) Bool)\n(assert (forall ((v Int)) (! (not (err.wm 0 v)) :pattern ((err.wm 0 v)))))\n(define-fun err.malformed ((t Int) (v Int)) Bool (or (= t %s) (err.wm t v)))", num(int64(tag))))
 	}
 	return sx("err.malformed", v.Fs[0].T, v.Fs[1].T)
 }
